@@ -1224,6 +1224,9 @@ def run(ctx, out, tier):
     from rules.C11 import check_exit, check_paths
     shared.run_renamed(out, lambda o: check_exit(ctx, o), "C11", "C14")
     check_paths(ctx, out, rule="C14.paths")
+    # "every other diagnostic is identical to an unrestricted run": the report keeps every violation (shared with C11)
+    from rules.C11 import check_items
+    shared.run_renamed(out, lambda o: check_items(ctx, o), "C11", "C14")
     return meta()
 
 
